@@ -8,7 +8,8 @@
       - [Call k]  : somebody calls TickNow / TickLater / NotifyRecv / NotifyPortFree;
       - [Pop]     : the engine dispatches the earliest tick event of this
                     component (its time becomes the engine time) and enters
-                    [TickingComponent.Handle];
+                    [TickingComponent.Handle], which first records that time as
+                    the last handled tick;
       - [Ret b]   : the component's [Tick()] returns the progress bit [b]
                     ([Handle] then calls [TickLater] when [b] is true).
     Calls between [Pop] and [Ret] are calls made from inside [Tick()].
@@ -49,9 +50,11 @@ Record st := mk_st {
   next : N;          (* nextTickTime *)
   pend : list N;     (* tick events of this component in the engine queue *)
   now : N;           (* engine.CurrentTime() *)
-  inh : bool }.      (* inside this component's Handle *)
+  inh : bool;        (* inside this component's Handle *)
+  hdl : option N }.  (* lastHandledTime when hasHandledTick: the time of the last tick
+                        event dispatched to this component (set by Handle before Tick()) *)
 
-Definition init : st := mk_st false 0 [] 0 false.
+Definition init : st := mk_st false 0 [] 0 false None.
 
 (** guard comparison variants, for the regression lemmas:
     the code uses [>=] ([GGe]); [GGt] is the mutation [>]. *)
@@ -62,11 +65,43 @@ Definition guard_hit (g : guard) (nxt t : N) : bool :=
 (** engine.Schedule(tick at t) issued by the scheduler: panics when t < now. *)
 Definition sched_at (s : st) (t : N) : option st :=
   if t <? now s then None
-  else Some (mk_st true t (pend s ++ [t]) (now s) (inh s)).
+  else Some (mk_st true t (pend s ++ [t]) (now s) (inh s) (hdl s)).
 
-(** TickScheduler.TickNow *)
-Definition tick_now_g (g : guard) (f : N) (s : st) : option (st * obs) :=
-  if has s && guard_hit g (next s) (now s) then Some (s, ODrop)
+Definition handled_now (s : st) : bool :=
+  match hdl s with Some h => h =? now s | None => false end.
+
+(** TickScheduler.TickNow (as repaired by fix commit f717b29c):
+      if has && next > now                      -> return          (a later tick is pending)
+      tickTime := ThisTick(now)
+      if has && next == now:
+          if !(hasHandled && lastHandled == now) -> return          (this instant's tick is still pending)
+          tickTime = NextTick(now)                                  (it already ran: next clock edge)
+      schedule tickTime *)
+Definition tick_now (f : N) (s : st) : option (st * obs) :=
+  if has s && (now s <? next s) then Some (s, ODrop)
+  else match this_tick f (now s) with
+       | None => None
+       | Some t0 =>
+           if has s && (next s =? now s) then
+             if handled_now s then
+               match next_tick f (now s) with
+               | None => None
+               | Some t => match sched_at s t with
+                           | None => None
+                           | Some s' => Some (s', OSched t)
+                           end
+               end
+             else Some (s, ODrop)
+           else match sched_at s t0 with
+                | None => None
+                | Some s' => Some (s', OSched t0)
+                end
+       end.
+
+(** TickNow before the fix: dropped whenever [has && next >= now], also when the
+    tick at [next = now] had already been handled (the lost wake-up of C09). *)
+Definition tick_now_old (f : N) (s : st) : option (st * obs) :=
+  if has s && guard_hit GGe (next s) (now s) then Some (s, ODrop)
   else match this_tick f (now s) with
        | None => None
        | Some t => match sched_at s t with
@@ -87,7 +122,6 @@ Definition tick_later_g (g : guard) (use_this : bool) (f : N) (s : st) : option 
            end
   end.
 
-Definition tick_now := tick_now_g GGe.
 Definition tick_later := tick_later_g GGe false.
 
 Fixpoint list_min (l : list N) : option N :=
@@ -119,7 +153,7 @@ Definition step (f : N) (s : st) (o : op) : res :=
       if inh s then Illegal
       else if t <? now s then Illegal
       else if forallb (fun u => t <=? u) (pend s)
-           then Ok (mk_st (has s) (next s) (pend s) t false) (EAdv t)
+           then Ok (mk_st (has s) (next s) (pend s) t false (hdl s)) (EAdv t)
            else Illegal
   | Call k =>
       match do_call k f s with
@@ -132,16 +166,16 @@ Definition step (f : N) (s : st) (o : op) : res :=
            | None => Illegal
            | Some t =>
                if t <? now s then Illegal
-               else Ok (mk_st (has s) (next s) (remove_first t (pend s)) t true) (EPop t)
+               else Ok (mk_st (has s) (next s) (remove_first t (pend s)) t true (Some t)) (EPop t)
            end
   | Ret b =>
       if negb (inh s) then Illegal
       else if b then
              match tick_later f s with
              | None => Panic
-             | Some (s', o) => Ok (mk_st (has s') (next s') (pend s') (now s') false) (ERet true o)
+             | Some (s', o) => Ok (mk_st (has s') (next s') (pend s') (now s') false (hdl s')) (ERet true o)
              end
-           else Ok (mk_st (has s) (next s) (pend s) (now s) false) (ERet false ODrop)
+           else Ok (mk_st (has s) (next s) (pend s) (now s) false (hdl s)) (ERet false ODrop)
   end.
 
 (** the next clock edge after the current time is representable *)
